@@ -125,6 +125,12 @@ def run(ctx):
     archs = core.shipped_archs()
     ctx.env = core.Env("C15")
     ctx.env.activate()
+    # the ISA databases are shared by all workers: load them once here so that the workers find a complete
+    # cache file (parallel cold starts racing on one cache file is what C17 is about, not this check)
+    from osaca.semantics import MachineModel
+
+    for isa_db in ("isa/x86", "isa/aarch64"):
+        MachineModel(arch=isa_db)
     with multiprocessing.get_context("fork").Pool(min(16, len(archs))) as pool:
         results = pool.map(worker, archs)
     n_values = n_bad = n_corr = n_alts = 0
